@@ -94,11 +94,188 @@ theorem TInv.uponDecided {c : Ctrl} {st : Store} (inv : CInv c st) (t : TInv c s
       exact saveFound_stores (c := { c with insts := (decidedBranch c st h m).1, height := h }) hy (Nat.le_refl _)
         (fun a ha => Nat.le_trans (inv.le a ha) hge)
 
-theorem TInv.processMsg {c : Ctrl} {st : Store} (inv : CInv c st) (t : TInv c st) (q h : Nat) (m : Msg) (ok : Bool) :
-    TInv (Heights.processMsg q c st h m ok).1 (Heights.processMsg q c st h m ok).2.1 := by
-  rcases processMsg_cases q c st h m ok with he | ⟨_, _, he⟩
+/-! ## an instance with an accepted proposal is decided (in this engine a proposal is only accepted by `commits`) -/
+
+def PAcc (i : Inst) : Prop := i.accepted.isSome = true → i.decided = true
+
+structure AInv (c : Ctrl) (st : Store) : Prop where
+  insts : ∀ i ∈ c.insts, PAcc i
+  hi : ∀ a, st.highest = some a → PAcc a.inst
+  hist : ∀ h a, histGet st.hist h = some a → PAcc a.inst
+
+theorem PAcc.trim {i : Inst} (h : PAcc i) : PAcc (trim i) := h
+theorem PAcc.recOf {i : Inst} (h : PAcc i) (m : Msg) : PAcc (recOf i m).inst := h
+theorem PAcc.of_decided {i : Inst} (h : i.decided = true) : PAcc i := fun _ => h
+
+theorem AInv.storeSave {c : Ctrl} {st : Store} (a : AInv c st) {i : Inst} (hi : PAcc i) (m : Msg) (th ah : Bool) :
+    AInv c (storeSave st ⟨i, m⟩ th ah) := by
+  refine ⟨a.insts, ?_, ?_⟩
+  · intro x hx
+    rcases storeSave_highest st i m th ah with hu | ⟨_, _, hw⟩
+    · rw [hu] at hx; exact a.hi x hx
+    · rw [hw] at hx; cases hx; exact hi.recOf m
+  · intro h x hx
+    unfold Heights.storeSave at hx
+    simp only at hx
+    split at hx
+    · rw [histGet_histPut] at hx
+      split at hx
+      · cases hx; exact hi
+      · exact a.hist h x hx
+    · exact a.hist h x hx
+
+theorem AInv.saveFound {c : Ctrl} {st : Store} (a : AInv c st) (h : Nat) (m : Msg) : AInv c (saveFound c st h m) := by
+  unfold Heights.saveFound
+  cases hf : find c.insts h with
+  | none => exact a
+  | some i =>
+    have hi := a.insts i (find_some_mem hf)
+    simp only
+    unfold saveInstance
+    simp only
+    cases c.full <;> cases decide (c.height ≤ i.height)
+    · exact a
+    · exact a.storeSave hi m false true
+    · exact a.storeSave hi m true false
+    · exact a.storeSave hi m true true
+
+/-- only the container matters for the store-independent part -/
+theorem AInv.of_insts {c c' : Ctrl} {st : Store} (a : AInv c st) (h : ∀ i ∈ c'.insts, PAcc i) : AInv c' st :=
+  ⟨h, a.hi, a.hist⟩
+
+theorem AInv.branch {c : Ctrl} {st : Store} (a : AInv c st) (hok : HistOk st.hist) (h : Nat) (m : Msg) :
+    ∀ y ∈ (decidedBranch c st h m).1, PAcc y := by
+  intro y hy
+  cases hf : find c.insts h with
+  | some i =>
+    rcases decidedBranch_mem (st := st) (m := m) hf with ⟨h1, _, _⟩ | ⟨i', _, h1, _, hd⟩
+    · rw [h1] at hy; exact a.insts y hy
+    · rw [h1] at hy
+      rcases mem_replaceInst hy with rfl | hy
+      · exact PAcc.of_decided hd
+      · exact a.insts y hy
+  | none =>
+    obtain ⟨_, x, hx, horig, hcase⟩ := decidedBranch_notmem (m := m) hok hf
+    have hpx : PAcc x := by
+      rcases horig with hn | ⟨s0, hs0, rfl⟩
+      · intro hsome; rw [hn] at hsome; cases hsome
+      · exact a.hist h s0 hs0
+    rcases hcase with ⟨h1, _⟩ | ⟨i', _, hd, h1⟩
+    · rw [h1] at hy
+      rcases mem_addNew hy with rfl | hy
+      · exact hpx
+      · exact a.insts y hy
+    · rw [h1] at hy
+      rcases mem_replaceInst hy with rfl | hy
+      · exact PAcc.of_decided hd
+      · rcases mem_addNew hy with rfl | hy
+        · exact hpx
+        · exact a.insts y hy
+
+theorem AInv.uponDecided {c : Ctrl} {st : Store} (a : AInv c st) (hok : HistOk st.hist) (h : Nat) (m : Msg) :
+    AInv (uponDecided c st h m).1 (uponDecided c st h m).2.1 := by
+  have he := uponDecided_eq c st h m
+  simp only at he
+  rw [he]
+  simp only
+  have hb : AInv { c with insts := (decidedBranch c st h m).1, height := if c.height < h then h else c.height } st :=
+    a.of_insts (a.branch hok h m)
+  cases hs : (decidedBranch c st h m).2
+  · simpa using hb
+  · simpa using hb.saveFound h m
+
+theorem AInv.existingMsg {c : Ctrl} {st : Store} (a : AInv c st) (q h : Nat) (m : Msg) :
+    AInv (Heights.existingMsg q c st h m).1 st := by
+  rcases existingMsg_ctrl q c st h m with he | ⟨i, i', hf, _, _, hacc, hdec, he⟩
+  · rw [he]; exact a
+  · rw [he]
+    apply a.of_insts
+    intro y hy
+    rcases mem_replaceInst hy with rfl | hy
+    · intro hs
+      rw [hacc] at hs
+      have := a.insts i (find_some_mem hf) hs
+      rw [hdec, this]; rfl
+    · exact a.insts y hy
+
+theorem AInv.processMsg {c : Ctrl} {st : Store} (a : AInv c st) (hok : HistOk st.hist) (q h : Nat) (m : Msg) (ok : Bool) :
+    AInv (Heights.processMsg q c st h m ok).1 (Heights.processMsg q c st h m ok).2.1 := by
+  rcases processMsg_cases q c st h m ok with he | ⟨_, _, he⟩ | ⟨_, _, he⟩
+  · rw [he]; exact a
+  · rw [he]; exact a.uponDecided hok h m
+  · rw [he]; exact a.existingMsg q h m
+
+theorem AInv.processMsg_ctrl {c : Ctrl} {st : Store} (a : AInv c st) (hok : HistOk st.hist) (q h : Nat) (m : Msg) (ok : Bool) :
+    AInv (Heights.processMsg q c st h m ok).1 st :=
+  a.of_insts (a.processMsg hok q h m ok).insts
+
+theorem AInv.compact {c : Ctrl} {st : Store} (a : AInv c st) (h : Nat) : AInv (compactAt c h) st := by
+  apply a.of_insts
+  intro y hy
+  unfold compactAt at hy
+  cases hf : find c.insts h with
+  | none => rw [hf] at hy; exact a.insts y hy
+  | some i0 =>
+    rw [hf] at hy
+    simp only at hy
+    rcases mem_replaceInst hy with rfl | hy
+    · exact (a.insts i0 (find_some_mem hf)).trim
+    · exact a.insts y hy
+
+/-- with `AInv`, the below-quorum commit path never reports a first decision: `.new` means a valid decided message -/
+theorem new_valid {s : State} (a : AInv s.c s.s) {h : Nat} {m : Msg} {ok : Bool}
+    (hnew : (processMsg s.q s.c s.s h m ok).2.2 = .new) :
+    s.q ≤ m.signers.length ∧ processMsg s.q s.c s.s h m ok = uponDecided s.c s.s h m ∧
+    h ≤ (processMsg s.q s.c s.s h m ok).1.height ∧ retMsg s.q s.c s.s h m ok = m := by
+  rcases processMsg_cases s.q s.c s.s h m ok with he | ⟨_, hq, he⟩ | ⟨_, hlt, he⟩
+  · rw [he] at hnew; cases hnew
+  · refine ⟨hq, he, by rw [he]; exact (uponDecided_height_ge s.c s.s h m).1, ?_⟩
+    unfold retMsg
+    have : ¬ m.signers.length < s.q := by omega
+    simp [this]
+  · rw [he] at hnew
+    obtain ⟨i, inMem, hi, hacc, hnd⟩ := existingMsg_new hnew
+    have hp : PAcc i := by
+      cases inMem
+      · -- reloaded from the historical store
+        unfold instanceForHeight at hi
+        cases hf : find s.c.insts h with
+        | some j => rw [hf] at hi; simp at hi
+        | none =>
+          rw [hf] at hi
+          simp only at hi
+          cases hfull : s.c.full
+          · rw [hfull] at hi; simp at hi
+          · rw [hfull] at hi
+            cases hh : histGet s.s.hist h with
+            | none => rw [hh] at hi; simp at hi
+            | some s0 =>
+              rw [hh] at hi
+              simp only [if_true, Option.some.injEq, Prod.mk.injEq, and_true] at hi
+              rw [← hi]; exact a.hist h s0 hh
+      · exact a.insts i (find_some_mem (instanceForHeight_true hi))
+    have := hp hacc
+    rw [hnd] at this; cases this
+
+theorem TInv.processMsg {c : Ctrl} {st : Store} (inv : CInv c st) (t : TInv c st) (a : AInv c st) (q h : Nat) (m : Msg)
+    (ok : Bool) : TInv (Heights.processMsg q c st h m ok).1 (Heights.processMsg q c st h m ok).2.1 := by
+  rcases processMsg_cases q c st h m ok with he | ⟨_, _, he⟩ | ⟨_, _, he⟩
   · rw [he]; exact t
   · rw [he]; exact t.uponDecided inv h m
+  · rw [he]
+    simp only
+    rcases existingMsg_ctrl q c st h m with he2 | ⟨i, i', hf, hi', hacc, _, _, he2⟩
+    · rw [he2]; exact t
+    · rw [he2]
+      intro y hy hyh hyd
+      have hy' : y ∈ replaceInst i' c.insts := hy
+      have hyh' : y.height = c.height := hyh
+      show ∃ b : Stored, st.highest = some b ∧ b.inst.height = c.height
+      rcases mem_replaceInst hy' with rfl | hyo
+      · -- the updated instance was decided before (it has an accepted proposal)
+        have hid := a.insts i (find_some_mem hf) hacc
+        exact t i (find_some_mem hf) (by have := find_some_height hf; omega) hid
+      · exact t y hyo hyh' hyd
 
 theorem TInv.load (st : Store) (full : Bool) : TInv (loadHighest (newCtrl full) st).1 st := by
   cases ha : st.highest with
@@ -120,14 +297,14 @@ theorem TInv.commits {s : State} (ci : CInv s.c s.s) (t : TInv s.c s.s) (root : 
     have hrh : rh ≤ s.c.height := hih ▸ ci.top.le i (find_some_mem hf)
     intro x hx hxh hxd
     have hxh' : x.height = s.c.height := hxh
-    have hx' : x ∈ replaceInst { i with decided := true, commits := singles s.q root } s.c.insts := hx
+    have hx' : x ∈ replaceInst (commitsInst s i root) s.c.insts := hx
     show ∃ a : Stored, _ ∧ a.inst.height = s.c.height
     rcases mem_replaceInst hx' with rfl | hxo
     · have hrc : rh = s.c.height := by
-        have : ({ i with decided := true, commits := singles s.q root } : Inst).height = i.height := rfl
+        have : (commitsInst s i root).height = i.height := rfl
         omega
-      have hfind : find (commitsCtrl s i root).insts rh = some { i with decided := true, commits := singles s.q root } :=
-        find_replaceInst_same (i' := { i with decided := true, commits := singles s.q root }) hf hih
+      have hfind : find (commitsCtrl s i root).insts rh = some (commitsInst s i root) :=
+        find_replaceInst_same (i' := commitsInst s i root) hf hih
       obtain ⟨b, hb, hbh⟩ := saveFound_stores (st := s.s) (m := ⟨Gen.heights_FirstRound, root, List.range' 1 s.q⟩) hfind
         (by rw [commitsCtrl_height]; omega) (fun a ha => by have := ci.le a ha; omega)
       exact ⟨b, hb, by omega⟩
@@ -198,7 +375,7 @@ theorem branch_find_at {c : Ctrl} {st : Store} {h : Nat} {m : Msg} (hok : HistOk
     · rw [h1, hf] at hy; cases hy; exact hd
     · rw [h1, find_replaceInst_same hf hi'] at hy; cases hy; exact hd
   | none =>
-    obtain ⟨_, x, hx, ⟨h1, hdx⟩ | ⟨i', hi', hd, h1⟩⟩ := decidedBranch_notmem (m := m) hok hf
+    obtain ⟨_, x, hx, _, ⟨h1, hdx⟩ | ⟨i', hi', hd, h1⟩⟩ := decidedBranch_notmem (m := m) hok hf
     · rw [h1] at hy
       rcases hdx with hdx | hdx
       · have := find_addNew_self (by rw [hx]; exact hf) (by rw [hx]; exact hy)
@@ -220,7 +397,7 @@ theorem branch_find_other {c : Ctrl} {st : Store} {h : Nat} {m : Msg} (hok : His
     · rw [h1] at hy; exact hy
     · rw [h1, find_replaceInst_other (by omega)] at hy; exact hy
   | none =>
-    obtain ⟨_, x, hx, ⟨h1, _⟩ | ⟨i', hi', _, h1⟩⟩ := decidedBranch_notmem (m := m) hok hf
+    obtain ⟨_, x, hx, _, ⟨h1, _⟩ | ⟨i', hi', _, h1⟩⟩ := decidedBranch_notmem (m := m) hok hf
     · rw [h1] at hy; exact find_addNew_other (by omega) hy
     · rw [h1, find_replaceInst_other (by omega)] at hy; exact find_addNew_other (by omega) hy
 
@@ -287,7 +464,32 @@ theorem RInv.afterMsg_keep {s : State} (ci : CInv s.c s.s) (ri : RInv s) (h : Na
   have base : (∃ d, s.r.running = some d ∧ d ≤ (processMsg s.q s.c s.s h m ok).1.height ∧
         (d = (processMsg s.q s.c s.s h m ok).1.height → AtTop (processMsg s.q s.c s.s h m ok).1)) ∧
       (∀ rh i, s.r.running = some rh → find (processMsg s.q s.c s.s h m ok).1.insts rh = some i → i.decided = true) := by
-    rcases processMsg_cases s.q s.c s.s h m ok with he | ⟨_, _, he⟩
+    rcases processMsg_cases s.q s.c s.s h m ok with he | ⟨_, _, he⟩ | ⟨_, _, he⟩
+    rotate_left 2
+    · -- below quorum: same height, same heights in the container, the instance of that height only gains a commit
+      rw [he]
+      simp only
+      refine ⟨?_, ?_⟩
+      · obtain ⟨d, hr, hd, hat⟩ := ri.val hv
+        refine ⟨d, hr, by rw [(existingMsg_height _ _ _ _ _).1]; exact hd, ?_⟩
+        intro hde
+        rw [(existingMsg_height _ _ _ _ _).1] at hde
+        have := hat hde
+        unfold AtTop at this ⊢
+        rw [(existingMsg_height _ _ _ _ _).1, existingMsg_find_isSome]
+        exact this
+      · intro rh y hr hf
+        rcases existingMsg_ctrl s.q s.c s.s h m with he2 | ⟨i, i', hfi, hi', _, _, hdec, he2⟩
+        · rw [he2] at hf; exact ri.dec hv rh y hr hf
+        · rw [he2] at hf
+          have hf' : find (replaceInst i' s.c.insts) rh = some y := hf
+          by_cases hrh : rh = h
+          · subst hrh
+            rw [find_replaceInst_same hfi hi'] at hf'
+            cases hf'
+            rw [hdec, ri.dec hv rh i hr hfi]; rfl
+          · rw [find_replaceInst_other (by omega)] at hf'
+            exact ri.dec hv rh y hr hf'
     · rw [he]; exact ⟨ri.val hv, ri.dec hv⟩
     · rw [he]
       refine ⟨?_, ?_⟩
@@ -320,11 +522,11 @@ theorem RInv.afterMsg_keep {s : State} (ci : CInv s.c s.s) (ri : RInv s) (h : Na
       rw [hd0]; exact base.2 rh i0 hr hf0
 
 /-- … and are established when the runner takes the decided value of a valid decided message for its running height -/
-theorem RInv.afterMsg_new {s : State} (ci : CInv s.c s.s) (h : Nat) (m : Msg) (ok cmp : Bool)
+theorem RInv.afterMsg_new {s : State} (ci : CInv s.c s.s) (ai : AInv s.c s.s) (h : Nat) (m : Msg) (ok cmp : Bool)
     (hnew : (processMsg s.q s.c s.s h m ok).2.2 = .new) :
     h ≤ (afterMsg s h m ok cmp).height ∧ (h = (afterMsg s h m ok cmp).height → AtTop (afterMsg s h m ok cmp)) ∧
     (∀ i, find (afterMsg s h m ok cmp).insts h = some i → i.decided = true) := by
-  obtain ⟨_, he, hle⟩ := new_valid hnew
+  obtain ⟨_, he, hle, _⟩ := new_valid ai hnew
   have base : (h = (processMsg s.q s.c s.s h m ok).1.height → AtTop (processMsg s.q s.c s.s h m ok).1) ∧
       (∀ i, find (processMsg s.q s.c s.s h m ok).1.insts h = some i → i.decided = true) := by
     rw [he]
@@ -396,7 +598,7 @@ theorem RInv.decideStep {s : State} (ci : CInv s.c s.s) (ri : RInv s) (slot : Na
     · intro hv; rw [hva, hnv] at hv; cases hv
     · intro hv; rw [hva, hnv] at hv; cases hv
 
-theorem RInv.step {s : State} (ci : SInv s) (ri : RInv s) (op : Op) : RInv (Heights.step s op).1 := by
+theorem RInv.step {s : State} (ci : SInv s) (ai : AInv s.c s.s) (ri : RInv s) (op : Op) : RInv (Heights.step s op).1 := by
   unfold SInv at ci
   cases op with
   | start slot =>
@@ -459,7 +661,7 @@ theorem RInv.step {s : State} (ci : SInv s) (ri : RInv s) (op : Op) : RInv (Heig
           simpa [f2] using (RInv.afterMsg_keep ci ri h ⟨r, root, sg⟩ ok _ hv).2
       · simp only [if_true]
         have hrun := runnerSaves_running hsv
-        obtain ⟨g1, g2, g3⟩ := RInv.afterMsg_new ci h ⟨r, root, sg⟩ ok (decide (s.q ≤ sg.length)) (runnerSaves_new hsv)
+        obtain ⟨g1, g2, g3⟩ := RInv.afterMsg_new ci ai h ⟨r, root, sg⟩ ok (decide (s.q ≤ sg.length)) (runnerSaves_new hsv)
         refine ⟨by simp only [f1, f2]; exact ri.run, ?_, ?_⟩
         · intro _
           exact ⟨h, by simp only [f2]; exact hrun, g1, g2⟩
@@ -501,7 +703,7 @@ theorem RInv.step {s : State} (ci : SInv s) (ri : RInv s) (op : Op) : RInv (Heig
           simpa [f2] using (RInv.afterMsg_keep ci ri h ⟨r, root, sg⟩ ok _ hv).2
       · simp only [if_true]
         have hrun := runnerSaves_running hsv
-        obtain ⟨g1, g2, g3⟩ := RInv.afterMsg_new ci h ⟨r, root, sg⟩ ok (decide (s.q ≤ sg.length)) (runnerSaves_new hsv)
+        obtain ⟨g1, g2, g3⟩ := RInv.afterMsg_new ci ai h ⟨r, root, sg⟩ ok (decide (s.q ≤ sg.length)) (runnerSaves_new hsv)
         refine ⟨by simp only [f1, f2]; exact ri.run, ?_, ?_⟩
         · intro _
           exact ⟨h, by simp only [f2]; exact hrun, g1, g2⟩
@@ -526,14 +728,15 @@ theorem RInv.step {s : State} (ci : SInv s) (ri : RInv s) (op : Op) : RInv (Heig
           split
           · -- applicable: the running instance becomes decided in place
             have hih := find_some_height hf
-            have hfind : find (replaceInst { i with decided := true, commits := singles s.q root } s.c.insts) rh =
-                some { i with decided := true, commits := singles s.q root } :=
-              find_replaceInst_same (i' := { i with decided := true, commits := singles s.q root }) hf hih
+            have hfind : find (replaceInst (commitsInst s i root) s.c.insts) rh =
+                some (commitsInst s i root) :=
+              find_replaceInst_same (i' := commitsInst s i root) hf hih
             obtain ⟨f1, f2, f3⟩ := syncRun_fields s.r
-              { s.c with insts := replaceInst { i with decided := true, commits := singles s.q root } s.c.insts }
+              { s.c with insts := replaceInst (commitsInst s i root) s.c.insts }
+            simp only [commitsInst] at f1 f2 f3
             have hrle : rh ≤ s.c.height := hih ▸ ci.top.le i (find_some_mem hf)
             have hat : rh = s.c.height →
-                AtTop { s.c with insts := replaceInst { i with decided := true, commits := singles s.q root } s.c.insts } := by
+                AtTop { s.c with insts := replaceInst (commitsInst s i root) s.c.insts } := by
               intro hh
               unfold AtTop
               show (find (replaceInst _ s.c.insts) s.c.height).isSome = true
@@ -545,14 +748,14 @@ theorem RInv.step {s : State} (ci : SInv s) (ri : RInv s) (op : Op) : RInv (Heig
               · intro _ rh' y hr' hy
                 simp only [f2] at hr'
                 rw [hr] at hr'; cases hr'
-                have hy' : find (replaceInst { i with decided := true, commits := singles s.q root } s.c.insts) rh = some y := hy
+                have hy' : find (replaceInst (commitsInst s i root) s.c.insts) rh = some y := hy
                 rw [hfind] at hy'; cases hy'; rfl
             · refine ⟨by simp only [f1, f2]; exact ri.run, ?_, ?_⟩
               · intro _; exact ⟨rh, by simp only [f2]; exact hr, hrle, hat⟩
               · intro _ rh' y hr' hy
                 simp only [f2] at hr'
                 rw [hr] at hr'; cases hr'
-                have hy' : find (replaceInst { i with decided := true, commits := singles s.q root } s.c.insts) rh = some y := hy
+                have hy' : find (replaceInst (commitsInst s i root) s.c.insts) rh = some y := hy
                 rw [hfind] at hy'; cases hy'; rfl
           · exact ri
   | compact h =>
@@ -581,27 +784,106 @@ theorem RInv.step {s : State} (ci : SInv s) (ri : RInv s) (op : Op) : RInv (Heig
 
 /-! ## all invariants together -/
 
+theorem AInv.start {c c' : Ctrl} {st : Store} {h : Nat} (a : AInv c st) (top : TopOk c.height c.insts)
+    (hs : startNewInstance c h = .ok c') : AInv c' st := by
+  obtain ⟨_, _, _, _, hins⟩ := startNewInstance_ok hs
+  apply a.of_insts
+  intro y hy
+  rw [hins, addNew_of_lt (start_lt top hs)] at hy
+  obtain ⟨x, hx, rfl⟩ := List.mem_map.mp hy
+  have hpx : PAcc x := by
+    rcases List.mem_cons.mp hx with rfl | hx
+    · intro hsome; simp [newInst] at hsome
+    · exact a.insts x (List.mem_of_mem_take hx)
+  split
+  · exact hpx
+  · exact hpx
+
+theorem AInv.load {c : Ctrl} {st : Store} (a : AInv c st) (full : Bool) : AInv (loadHighest (newCtrl full) st).1 st := by
+  apply a.of_insts
+  cases ha : st.highest with
+  | none => rw [(loadHighest_none ha).1]; intro y hy; cases hy
+  | some x =>
+    rw [(loadHighest_some (c := newCtrl full) ha).2.1]
+    intro y hy
+    simp only [List.mem_singleton] at hy
+    rw [hy]; exact (a.hi x ha).trim
+
+theorem AInv.commits {s : State} (a : AInv s.c s.s) (root : Nat) (vc : Bool) :
+    AInv (commitsStep s root vc).1.c (commitsStep s root vc).1.s := by
+  have hc' : ∀ i, AInv (commitsCtrl s i root) s.s := by
+    intro i
+    apply a.of_insts
+    intro y hy
+    have hy' : y ∈ replaceInst (commitsInst s i root) s.c.insts := hy
+    rcases mem_replaceInst hy' with rfl | hy'
+    · exact PAcc.of_decided rfl
+    · exact a.insts y hy'
+  rcases commitsStep_cases s root vc with ⟨h0, _⟩ | ⟨rh, i, _, _, _, _, _, hc, ⟨_, hs⟩ | ⟨_, hs⟩⟩
+  · rw [h0]; exact a
+  · rw [hc, hs]; exact hc' i
+  · rw [hc, hs]; exact (hc' i).saveFound _ _
+
+theorem AInv.step {s : State} (ci : SInv s) (a : AInv s.c s.s) (op : Op) : AInv (Heights.step s op).1.c (Heights.step s op).1.s := by
+  unfold SInv at ci
+  rcases step_cs s op with ⟨hc, hs⟩ | ⟨slot, c', hst, hc, hs⟩ | ⟨h, m, ok, hc, hs⟩ | ⟨h, m, ok, hc, hs⟩ |
+    ⟨h, m, ok, _, hc, hs⟩ | ⟨h, m, ok, _, hc, hs⟩ | ⟨root, vc, hc, hs⟩ | ⟨h, hc, hs⟩ | ⟨full, _, hc, hs⟩
+  · rw [hc, hs]; exact a
+  · rw [hc, hs]; exact a.start ci.top hst
+  · rw [hc, hs]; exact a.processMsg ci.hist s.q h m ok
+  · rw [hc, hs]
+    unfold decidedViaRunner
+    simp only
+    have hp := a.processMsg ci.hist s.q h m ok
+    have hc2 : AInv (if s.q ≤ m.signers.length then compactAt (Heights.processMsg s.q s.c s.s h m ok).1 h else (Heights.processMsg s.q s.c s.s h m ok).1)
+        (Heights.processMsg s.q s.c s.s h m ok).2.1 := by
+      split
+      · exact hp.compact h
+      · exact hp
+    cases hsv : runnerSaves s.r h (Heights.processMsg s.q s.c s.s h m ok).2.2
+    · simpa using hc2
+    · simp only [if_true]; exact hc2.saveFound _ _
+  · rw [hc, hs]; exact a.processMsg_ctrl ci.hist s.q h m ok
+  · rw [hc, hs]
+    unfold decidedViaRunnerSF
+    simp only
+    have hp := a.processMsg_ctrl ci.hist s.q h m ok
+    have hc2 : AInv (if s.q ≤ m.signers.length then compactAt (Heights.processMsg s.q s.c s.s h m ok).1 h else (Heights.processMsg s.q s.c s.s h m ok).1)
+        s.s := by
+      split
+      · exact hp.compact h
+      · exact hp
+    cases hsv : (runnerSaves s.r h (Heights.processMsg s.q s.c s.s h m ok).2.2 &&
+        (ok && decide (s.q ≤ m.signers.length) && firstSaveCalled s.c s.s h m))
+    · simpa using hc2
+    · simp only [if_true]; exact hc2.saveFound _ _
+  · rw [hc, hs]; exact a.commits root vc
+  · rw [hc, hs]; exact a.compact h
+  · rw [hc, hs]; exact a.load full
+
 structure SInvT (s : State) : Prop where
   c : CInv s.c s.s
   t : TInv s.c s.s
   r : RInv s
+  a : AInv s.c s.s
 
 theorem SInvT.init (full : Bool) (q : Nat) : SInvT (Heights.init full q) :=
-  ⟨CInv.init full, (by intro i hi; cases hi), RInv.init full q⟩
+  ⟨CInv.init full, (by intro i hi; cases hi), RInv.init full q,
+    ⟨(by intro i hi; cases hi), (by intro x hx; cases hx), (by intro h x hx; simp [Heights.init, histGet] at hx)⟩⟩
 
 theorem SInvT.step {s : State} (inv : SInvT s) (op : Op)
     (hnf : ∀ h r root sg ok via, op ≠ .decidedSF h r root sg ok via) : SInvT (Heights.step s op).1 := by
-  refine ⟨SInv.step inv.c op, ?_, RInv.step inv.c inv.r op⟩
-  obtain ⟨ci, t, ri⟩ := inv
+  refine ⟨SInv.step inv.c op, ?_, RInv.step inv.c inv.a inv.r op, AInv.step inv.c inv.a op⟩
+  obtain ⟨ci, t, ri, ai⟩ := inv
   rcases step_cs s op with ⟨hc, hs⟩ | ⟨slot, c', hst, hc, hs⟩ | ⟨h, m, ok, hc, hs⟩ | ⟨h, m, ok, hc, hs⟩ |
     ⟨h, m, ok, hop, _, _⟩ | ⟨h, m, ok, hop, _, _⟩ | ⟨root, vc, hc, hs⟩ | ⟨h, hc, hs⟩ | ⟨full, _, hc, hs⟩
   · rw [hc, hs]; exact t
   · rw [hc, hs]; exact TInv.start ci hst
-  · rw [hc, hs]; exact t.processMsg ci s.q h m ok
+  · rw [hc, hs]; exact t.processMsg ci ai s.q h m ok
   · rw [hc, hs]
     unfold decidedViaRunner
     simp only
-    have hp := t.processMsg ci s.q h m ok
+    have hp := t.processMsg ci ai s.q h m ok
     have hc2 : TInv (if s.q ≤ m.signers.length then compactAt (processMsg s.q s.c s.s h m ok).1 h else (processMsg s.q s.c s.s h m ok).1)
         (processMsg s.q s.c s.s h m ok).2.1 := by
       split
@@ -610,10 +892,11 @@ theorem SInvT.step {s : State} (inv : SInvT s) (op : Op)
     cases hsv : runnerSaves s.r h (processMsg s.q s.c s.s h m ok).2.2
     · simpa using hc2
     · simp only [if_true]
-      obtain ⟨hq, _, hle⟩ := new_valid (runnerSaves_new hsv)
+      have hle := new_height (runnerSaves_new hsv)
       apply hc2.saveFound
-      simp only [hq, if_true, compactAt_height]
-      exact hle
+      split
+      · rw [compactAt_height]; exact hle
+      · exact hle
   · exact absurd hop (hnf _ _ _ _ _ _)
   · exact absurd hop (hnf _ _ _ _ _ _)
   · rw [hc, hs]
